@@ -69,11 +69,23 @@ fn main() {
             let vectors = read_lines(&arg(&args, "--in").expect("--in"));
             let mut wk: Option<worker::Worker> = None;
             for v in &vectors {
-                match dispatch(v, &mut out, &mut wk) {
-                    Ok(()) => {}
-                    Err(e) => {
+                // a panic that escapes an operation's own monitors: inside libhaystack it is data (a lib.panic event, which
+                // the driver reports under the property being checked); inside the harness it is a tool error
+                match util::guarded(|| dispatch(v, &mut out, &mut wk)) {
+                    Ok(Ok(())) => {}
+                    Ok(Err(e)) => {
                         eprintln!("TOOL-ERROR: {e} on vector {v}");
                         std::process::exit(2);
+                    }
+                    Err(p) => {
+                        let at = util::last_panic_at();
+                        if util::panic_in_library(&at) {
+                            out.emit(serde_json::json!({"op":"lib.panic","vec_op":v["op"],"msg":util::short(&p),"at":at}));
+                            wk = None;
+                        } else {
+                            eprintln!("TOOL-ERROR: harness panicked at {at}: {p} on vector {v}");
+                            std::process::exit(2);
+                        }
                     }
                 }
             }
@@ -84,7 +96,7 @@ fn main() {
             let seed: u64 = arg(&args, "--seed").and_then(|s| s.parse().ok()).unwrap_or(1);
             let depth: usize = arg(&args, "--depth").and_then(|s| s.parse().ok()).unwrap_or(3);
             let mut g = gen::Gen::new(seed);
-            match dom.as_str() {
+            let recorded = util::guarded(|| match dom.as_str() {
                 "zinc" => {
                     for _ in 0..n {
                         let v = g.value(depth);
@@ -128,6 +140,15 @@ fn main() {
                 }
                 _ => {
                     eprintln!("unknown domain {dom}");
+                    std::process::exit(2);
+                }
+            });
+            if let Err(p) = recorded {
+                let at = util::last_panic_at();
+                if util::panic_in_library(&at) {
+                    out.emit(serde_json::json!({"op":"lib.panic","vec_op":format!("rec {dom}"),"msg":util::short(&p),"at":at}));
+                } else {
+                    eprintln!("TOOL-ERROR: harness panicked at {at}: {p} while recording {dom}");
                     std::process::exit(2);
                 }
             }
